@@ -189,3 +189,191 @@ def cell_case(draw, profile=None):
     ops.append(['cycle'])
     case['ops'] = ops
     return case
+
+
+# ===================================================================== E2
+PROIDS = ['pra', 'prb', 'prc']
+TRAIT_NAMES = ['ta', 'tb', 'tc']
+
+
+@st.composite
+def e2_server_spec(draw, nparts, up=True):
+    return {
+        'cap': draw(vec(2, 16)),
+        'part': draw(st.integers(0, nparts - 1)),
+        'traits': draw(st.one_of(st.just(0), trait_mask())),
+        'age': draw(st.sampled_from([0, 0, 3600, 5 * DAY, 19 * DAY])),
+        'style': draw(st.integers(0, 7)),
+        'up': draw(st.sampled_from([True, True, True, True, False]))
+        if not up else True,
+    }
+
+
+@st.composite
+def e2_allocs(draw, nparts):
+    allocs = []
+    for idx in range(draw(st.integers(0, 3))):
+        name = draw(st.sampled_from(['ten%d/a%d', 'ten%d:a%d'])) % (
+            draw(st.integers(0, 1)), idx)
+        assigns = []
+        for _ in range(draw(st.integers(1, 2))):
+            proid = draw(st.sampled_from(PROIDS))
+            pat = draw(st.sampled_from(
+                ['%s.*', '%s.aff0', '%s.aff1*', '%s.aff[12]']))
+            assigns.append([pat % proid,
+                            draw(st.sampled_from([0, 1, 1, 10, 100]))])
+        allocs.append({
+            'name': name,
+            'part': draw(st.integers(0, nparts - 1)),
+            'reserved': draw(st.one_of(st.none(), vec(0, 12))),
+            'rank': draw(st.sampled_from([100, 100, 99, 50, 0])),
+            'adj': draw(st.sampled_from([0, 0, 10, 20])),
+            'maxutil': draw(st.sampled_from(
+                [None, None, None, 0.5, 1.0, 1.5, 3.0])),
+            'traits': draw(st.sampled_from([0, 0, 0, 1, 2, 4, 3])),
+            'assign': assigns,
+            'style': draw(st.integers(0, 7)),
+        })
+    return allocs
+
+
+def e2_op_strategies(nparts, ngroups, profile):
+    idx = st.integers(0, 63)
+    lease = st.sampled_from([None, None, None, '1h', '1d', '6d', '30d']) \
+        if profile.get('lease', True) else st.none()
+    traits = st.sampled_from(
+        [[], [], [], ['ta'], ['tb'], ['ta', 'tb'], ['nosuch']]) \
+        if profile.get('traits', True) else st.just([])
+    group = st.one_of(st.none(), st.none(),
+                      st.integers(0, max(0, ngroups - 1))) \
+        if ngroups else st.none()
+    ops = {
+        'app': st.tuples(
+            st.just('app'), st.sampled_from(PROIDS), st.integers(0, 2),
+            vec(0, profile.get('demand_hi', 8)),
+            st.sampled_from([None, None, 0, 1, 5, 50, 100]),
+            lease,
+            st.sampled_from([None, '0s', '30s', '10m', '1h', '1d']),
+            group, traits,
+            st.sampled_from([False, False, False, True]),
+            st.sampled_from([1, 1, 1, 2, 3]),
+            st.integers(0, 7)).map(list),
+        'rm': st.tuples(st.just('rm'), idx).map(list),
+        'finish': st.tuples(st.just('finish'), idx).map(list),
+        'prio': st.tuples(st.just('prio'), idx,
+                          st.sampled_from([0, 1, 5, 50, 100])).map(list),
+        'srv': st.tuples(st.just('srv'), st.integers(0, 8),
+                         e2_server_spec(nparts, up=False)).map(list),
+        'rmsrv': st.tuples(st.just('rmsrv'), idx).map(list),
+        'down': st.tuples(st.just('down'), idx).map(list),
+        'up': st.tuples(st.just('up'), idx, st.one_of(
+            st.none(), st.none(), e2_server_spec(nparts))).map(list),
+        'reboot': st.tuples(st.just('reboot'), idx, st.one_of(
+            st.none(), e2_server_spec(nparts))).map(list),
+        'resize': st.tuples(st.just('resize'), idx, vec(2, 16),
+                            st.integers(0, 7)).map(list),
+        'repart': st.tuples(st.just('repart'), idx,
+                            st.integers(0, 2)).map(list),
+        'reparent': st.tuples(st.just('reparent'), idx,
+                              st.integers(0, 8)).map(list),
+        'state': st.tuples(st.just('state'), idx,
+                           st.sampled_from(['frozen', 'frozen', 'up', 'down']),
+                           st.lists(idx, max_size=2)).map(list),
+        'allocs': st.tuples(st.just('allocs'), e2_allocs(nparts)).map(list),
+        'idg': st.tuples(st.just('idg'), st.integers(0, max(0, ngroups - 1)),
+                         st.integers(0, 4)).map(list),
+        'rmidg': st.tuples(st.just('rmidg'),
+                           st.integers(0, max(0, ngroups - 1))).map(list),
+        'bl': st.tuples(st.just('bl'), st.lists(st.sampled_from(
+            ['pra.*', 'prb.aff0', 'prc.aff1', '*.aff2', 'pr?.aff0']),
+            max_size=2)).map(list),
+        'blackout': st.tuples(st.just('blackout'), idx,
+                              st.booleans()).map(list),
+        'cellev': st.tuples(st.just('cellev'), st.integers(0, 3),
+                            st.booleans()).map(list),
+        'running': st.tuples(st.just('running'), idx).map(list),
+        'adv': st.tuples(st.just('adv'), st.sampled_from(
+            [1, 10, 29, 31, 301, 599, 601, 3599, 3601, DAY, 3 * DAY, 8 * DAY,
+             22 * DAY])).map(list),
+        'adv_ret': st.tuples(st.just('adv_ret'), idx, st.sampled_from(
+            [-5, -1, 1, 5, 100])).map(list),
+        'tickreboots': st.just(['tickreboots']),
+        'checkreboot': st.just(['checkreboot']),
+        'integrity': st.just(['integrity']),
+        'enq': st.just(['enq']),
+        'proc': st.just(['proc']),
+        'ev': st.just(['ev']),
+        'sched': st.just(['sched']),
+        'cycle': st.just(['cycle']),
+        'restart': st.just(['restart']),
+    }
+    if not ngroups:
+        ops.pop('idg')
+        ops.pop('rmidg')
+    for extra in profile.get('extra_ops', ()):
+        ops[extra] = st.just([extra])
+    return ops
+
+
+E2_WEIGHTS = {
+    'app': 10, 'rm': 2, 'finish': 1, 'prio': 1, 'srv': 1, 'rmsrv': 1,
+    'down': 2, 'up': 2, 'reboot': 1, 'resize': 1, 'repart': 1, 'reparent': 1,
+    'state': 1, 'allocs': 1, 'idg': 1, 'rmidg': 1, 'bl': 1, 'blackout': 1,
+    'cellev': 1, 'running': 1, 'adv': 2, 'adv_ret': 1, 'tickreboots': 1,
+    'checkreboot': 1, 'integrity': 1, 'enq': 1, 'proc': 1, 'ev': 3,
+    'sched': 3, 'cycle': 6, 'restart': 1,
+}
+
+
+@st.composite
+def master_case(draw, profile=None):
+    """A full E2 case."""
+    profile = profile or {}
+    nparts = draw(st.integers(1, profile.get('max_parts', 2)))
+    ngroups = draw(st.integers(0, 2)) if profile.get('groups', True) else 0
+    pods = []
+    for _p in range(draw(st.integers(1, profile.get('max_pods', 2)))):
+        racks = []
+        for _r in range(draw(st.integers(1, profile.get('max_racks', 2)))):
+            racks.append(draw(st.lists(
+                e2_server_spec(nparts, up=False),
+                min_size=0 if racks else 1,
+                max_size=profile.get('max_servers', 3))))
+        pods.append(racks)
+    case = {
+        'engine': 'e2',
+        't0': draw(st.sampled_from([0, 3600 * 5, DAY * 3 + 7200])),
+        'unit': draw(st.sampled_from([1, 1, 1024])),
+        'order': draw(st.integers(0, 3)),
+        'nparts': nparts,
+        'topo': pods,
+        'affs': draw(affinities(limits=profile.get('limits', True))),
+        'allocs': draw(e2_allocs(nparts)),
+        'groups': [draw(st.integers(0, 4)) for _ in range(ngroups)],
+    }
+    strategies = e2_op_strategies(nparts, ngroups, profile)
+    weights = dict(E2_WEIGHTS)
+    weights.update(profile.get('weights', {}))
+    core = ('app', 'cycle', 'ev', 'sched')
+    optional = [k for k in strategies if k not in core]
+    enabled = draw(st.sets(st.sampled_from(sorted(optional)), min_size=3))
+    forced = set(profile.get('force', ()))
+    pool = []
+    for kind in sorted(strategies):
+        if kind in core or kind in enabled or kind in forced:
+            pool.extend([kind] * weights.get(kind, 1))
+    one_op = st.sampled_from(pool).flatmap(lambda kind: strategies[kind])
+    pre_lo, pre_hi = profile.get('pre', (1, 8))
+    pre = draw(st.lists(strategies['app'], min_size=pre_lo, max_size=pre_hi))
+    ops = draw(st.lists(one_op, min_size=profile.get('min_ops', 4),
+                        max_size=profile.get('max_ops', 30)))
+    case['ops'] = pre + [['cycle']] + ops
+    return case
+
+
+def tagged(e1_profile, e2_profile, e2_share=3):
+    """one_of(E1 case, E2 case); e2_share out of 10 cases are E2."""
+    e1 = cell_case(e1_profile).map(lambda c: dict(c, engine='e1'))
+    e2 = master_case(e2_profile)
+    return st.integers(0, 9).flatmap(
+        lambda k: e2 if k < e2_share else e1)
